@@ -588,6 +588,7 @@ def rule_refusal_ends_wait(la, res, site, flag=("channel", "is_accepting_writes"
     loop serves only the caller that arrives after the refusal; a callee that folds the flag into "no room"
     keeps the waiter asleep.)"""
     f = site["fn"]
+    res.touched(f)
     loop = set(site["loop"] or ())
     if not loop:
         return 0
